@@ -1044,7 +1044,7 @@ class NetWorld(World):
         got = [[e.id, e.source.id, e.target.id, e.orientation] for e in (new.getEdge(i) for i in new.getEdgesId())]
         exp = [[e["id"], e["s"], e["t"], e["o"]] for e in m["edges"]]
         if got != exp:
-            self.fail("C06", "reload.structure", "edges of the reloaded network", exp, got)
+            self.fail("C06", "network.reload_structure", "edges of the reloaded network", exp, got)
 
     def op_set_routing(self, st):
         """One user selects the routing algorithm of *his* network.  A* is documented as
